@@ -60,6 +60,13 @@ func (x *Exec) calleeContract(call *ssa.CallCommon) (*Contract, calleeKind) {
 		if v.Parent() != nil {
 			return nil, calleeInline // function literal
 		}
+		if strings.HasPrefix(v.Name(), "init#") && v.Pkg == x.fn.Pkg {
+			return nil, calleeInline // declared init() function of the package being initialised
+		}
+		if v.Name() == "init" && v.Pkg != nil && v.Pkg != x.fn.Pkg {
+			// initialiser of an imported package: cannot reach this package's variables (imports are acyclic)
+			return nil, calleeExternal
+		}
 		if v.Pkg == nil || !x.E.inModule(v.Pkg.Pkg) {
 			return nil, calleeExternal
 		}
@@ -159,14 +166,18 @@ func (x *Exec) doCall(s *State, call *ssa.CallCommon, fnv Val, args []Val, in *s
 			}
 		}
 		if kind == calleeDynamic {
-			if res, ok, handled := x.dispatchKnownFuncs(s, call, fnv, args); handled {
+			// function-typed struct field with a field contract
+			if fc := x.fieldContract(call.Value); fc != nil {
+				res, ok := x.applyFieldContract(s, fc, call, fnv, args)
+				if ok && fc.Pure {
+					x.knownFuncFacts(s, call, fnv, args, res)
+				}
 				return res, ok
 			}
 		}
 		if kind == calleeDynamic {
-			// function-typed struct field with a field contract
-			if fc := x.fieldContract(call.Value); fc != nil {
-				return x.applyFieldContract(s, fc, call, fnv, args)
+			if res, ok, handled := x.dispatchKnownFuncs(s, call, fnv, args); handled {
+				return res, ok
 			}
 		}
 	}
@@ -895,9 +906,75 @@ func (x *Exec) dispatchKnownFuncs(s *State, call *ssa.CallCommon, fnv Val, args 
 			}
 		}
 		env := &SpecEnv{X: x, S: s, Old: pre, Vars: ce.vars, Results: results, Pkg: ce.c.SpecPkg, Fn: x.fn, CalleeView: true, AllocPre: allocPre}
+		hasSummary := false
 		for _, en := range ce.c.Ensures {
+			if strings.HasPrefix(en.Label, "any-") {
+				hasSummary = true
+			}
+		}
+		for _, en := range ce.c.Ensures {
+			if hasSummary && !strings.HasPrefix(en.Label, "any-") {
+				continue // summary clauses (label any-*) are what callers through a function value get
+			}
 			s.assume(smt.Implies(ce.eq, x.evalBool(env, en.E)))
 		}
 	}
 	return resultVal(sig, vals), true, true
+}
+
+// knownFuncFacts: after a call through a function value whose result is already determined (pure field
+// contract), add what is known when the value is a particular side-effect-free module function under contract.
+func (x *Exec) knownFuncFacts(s *State, call *ssa.CallCommon, fnv Val, args []Val, res Val) {
+	sig := call.Signature()
+	var rterms []*smt.Term
+	switch r := res.(type) {
+	case TermVal:
+		rterms = []*smt.Term{r.T}
+	case TupleVal:
+		for _, e := range r.Elems {
+			if tv, ok := e.(TermVal); ok {
+				rterms = append(rterms, tv.T)
+			}
+		}
+	}
+	if len(rterms) != sig.Results().Len() {
+		return
+	}
+	fnT := x.toTerm(s, fnv, call.Value.Type())
+	for _, c := range x.E.SortedContracts() {
+		cs, ok := c.Obj.Type().(*types.Signature)
+		if !ok || cs.Recv() != nil || !x.E.inModule(c.Obj.Pkg()) {
+			continue
+		}
+		if !(c.Pure || (c.AssignsSet && len(c.Assigns) == 0)) || len(c.Requires) > 0 && false {
+			continue
+		}
+		if !types.Identical(types.NewSignatureType(nil, nil, nil, cs.Params(), cs.Results(), cs.Variadic()), types.NewSignatureType(nil, nil, nil, sig.Params(), sig.Results(), sig.Variadic())) {
+			continue
+		}
+		f := x.E.Prog.FuncValue(c.Obj)
+		if f == nil {
+			continue
+		}
+		x.E.usedContracts[c] = true
+		vars := map[string]SVal{}
+		for i, p := range c.Params {
+			if i < len(args) {
+				vars[c.ParamNm[i]] = SVal{T: x.toTerm(s, args[i], p.Type()), GT: p.Type()}
+			}
+		}
+		results := map[string]SVal{}
+		for i := range rterms {
+			results[c.ResultNm[i]] = SVal{T: rterms[i], GT: sig.Results().At(i).Type()}
+		}
+		env := &SpecEnv{X: x, S: s, Old: copyHeap(s.heap), Vars: vars, Results: results, Pkg: c.SpecPkg, Fn: x.fn, CalleeView: true}
+		eq := smt.Eq(fnT, x.E.FnConst(f))
+		var pre []*smt.Term
+		for _, r := range c.Requires {
+			pre = append(pre, x.evalBool(env, r.E))
+		}
+		for _, en := range c.Ensures {
+			s.assume(smt.Implies(smt.And(append([]*smt.Term{eq}, pre...)...), x.evalBool(env, en.E)))
+		}
+	}
 }
